@@ -188,17 +188,48 @@ Lemma land3_mod x : N.land x 3 = x mod 4.
 Proof. change 3 with (N.ones 2). rewrite N.land_ones. reflexivity. Qed.
 
 (* EEnd: one byte per call *)
+Definition end_byte (n : Z) (X P : N) : byte :=
+  let c := crc_finalize X in
+  if (n <? 0)%Z then 0 else if (n <? 4)%Z then 27 else if (n =? 4)%Z then 26
+  else if (n =? 5)%Z then N.land P 3 else if (n =? 6)%Z then N.land c 255 else N.shiftr c 8.
+
+Lemma end_out_cons n X P :
+  (-3 <= n < 8)%Z -> end_out n X P = end_byte n X P :: end_out (n + 1) X P.
+Proof.
+  intros H.
+  assert (n = -3 \/ n = -2 \/ n = -1 \/ n = 0 \/ n = 1 \/ n = 2 \/ n = 3 \/ n = 4 \/ n = 5 \/
+          n = 6 \/ n = 7)%Z as Hc by lia.
+  repeat (destruct Hc as [->|Hc]; [reflexivity|]). subst n. reflexivity.
+Qed.
+
+Lemma end_out_8 X P : end_out 8 X P = [].
+Proof. reflexivity. Qed.
+
+Lemma enc_next_end f e n :
+  est e = EEnd n -> (-3 <= n < 8)%Z ->
+  enc_next (S f) e = (set_est e (EEnd (n + 1)), EByte (end_byte n (ecrc e) (epad e))).
+Proof.
+  intros He Hn. cbn [enc_next]. rewrite He. unfold end_byte, pad_get.
+  destruct (Z.ltb_spec n 0); [reflexivity|].
+  destruct (Z.ltb_spec n 4); [reflexivity|].
+  destruct (Z.eqb_spec n 4); [reflexivity|].
+  destruct (Z.eqb_spec n 5); [reflexivity|].
+  destruct (Z.eqb_spec n 6); [reflexivity|].
+  destruct (Z.eqb_spec n 7); [reflexivity|]. lia.
+Qed.
+
+Lemma enc_next_end8 f e : est e = EEnd 8 -> enc_next (S f) e = (e, ENone).
+Proof. intros He. cbn [enc_next]. rewrite He. reflexivity. Qed.
+
 Lemma end_step f e n :
   est e = EEnd n -> (-3 <= n <= 8)%Z -> step_ok (S f) e.
 Proof.
-  intros He Hn. unfold step_ok, out_of. rewrite He. cbn [enc_next]. rewrite He.
-  assert (n = -3 \/ n = -2 \/ n = -1 \/ n = 0 \/ n = 1 \/ n = 2 \/ n = 3 \/ n = 4 \/ n = 5 \/
-          n = 6 \/ n = 7 \/ n = 8)%Z as Hc by lia.
-  unfold end_out, end_bytes, pad_get.
-  repeat (destruct Hc as [->|Hc];
-    [ cbn; eexists; split; [reflexivity|]; split;
-      [ unfold out_of, end_out, end_bytes; cbn; reflexivity | unfold valid; cbn; lia ] | ]).
-  subst n. cbn. reflexivity.
+  intros He Hn. unfold step_ok, out_of. rewrite He.
+  destruct (Z.eq_dec n 8) as [->|N8].
+  - rewrite end_out_8. apply enc_next_end8. exact He.
+  - rewrite end_out_cons by lia. eexists. split; [apply enc_next_end; [exact He|lia]|].
+    split; [|unfold valid; cbn [est set_est]; lia].
+    unfold out_of. cbn [est set_est ecrc epad]. reflexivity.
 Qed.
 
 (* ELook c, c < 4 *)
